@@ -92,6 +92,11 @@ claim('C13', 'Hypothesis two-qubit states of every rank incl. near-separable (ep
       'is compared with the explicit average over the decomposition it encodes (which must reproduce the state that was set, also after re-use) and with the closed form from below.',
       'trusted: numpy svd/eigh; model internals manifold/_sqrt_rho used only to read off the ensemble; tolerances 1e-7 (concurrence), 1e-8 otherwise, GME near C=1 scaled by its derivative')
 
+claim('C06', 'Hypothesis directions (random / low-rank / non-PSD Hermitian / entangled, single and batched) and generated call histories of the SDP boundaries; oracle: eigenvalues just inside/outside the reported thresholds with own partial transpose, explicit interpolation formula, membership of inner-model states at arbitrary parameters in every outer set, analytic Werner/isotropic k-extension boundaries, order independence, nesting inequalities',
+      'State-space and PPT boundaries are checked as exact thresholds (delta 1e-6) in five dimension pairs with batches; PureBosonicExt / AutodiffCHAREE states at random parameters and CHA LP decompositions are '
+      'pushed through the outer tests; SDP boundary lengths are computed in generated orders of (k, PPT, bosonic) calls from a clean memo and compared with each other, with analytic values and with themselves after other calls.',
+      'trusted: SDP solver accuracy ~1e-5 (orderings judged at 1e-4; feasibility test has ~1% slack, judged at 5%); CHA SolverError inconclusive; quick tier k<=2 beyond two qubits')
+
 NOT_YET = 'check not built yet in this session (work in progress; see DESIGN.md section 4 for the planned generator and oracle)'
 
 ALL = [f'C{i:02d}' for i in range(1, 21)]
